@@ -81,18 +81,26 @@ pub fn yacckind_of(s: &str) -> Option<YaccKind> {
     })
 }
 fn vis_of(s: &str) -> Visibility {
+    if let Some(p) = s.strip_prefix("PublicIn:") {
+        return Visibility::PublicIn(p.to_string());
+    }
     match s {
         "Public" => Visibility::Public,
         "PublicSuper" => Visibility::PublicSuper,
         "PublicCrate" => Visibility::PublicCrate,
+        "PublicSelf" => Visibility::PublicSelf,
         _ => Visibility::Private,
     }
 }
 fn lvis_of(s: &str) -> lrlex::Visibility {
+    if let Some(p) = s.strip_prefix("PublicIn:") {
+        return lrlex::Visibility::PublicIn(p.to_string());
+    }
     match s {
         "Public" => lrlex::Visibility::Public,
         "PublicSuper" => lrlex::Visibility::PublicSuper,
         "PublicCrate" => lrlex::Visibility::PublicCrate,
+        "PublicSelf" => lrlex::Visibility::PublicSelf,
         _ => lrlex::Visibility::Private,
     }
 }
